@@ -655,11 +655,14 @@ impl Check for C09 {
                 1 => vec![begin("A"), OpSpec::Cancel { token: "A".into(), rev: RevOutcome::success(), cleanup: eod_abort }, card_op()],
                 2 => vec![OpSpec::Configure { out: ConfigureOutcome { cleanup: eod_abort, ..ConfigureOutcome::plain() } }, card_op()],
                 3 => vec![begin("A"), OpSpec::Commit { token: "A".into(), amount: 1000, rev: rev_abort, cleanup: CleanupSpec::plain() }, card_op()],
-                4 => vec![OpSpec::Begin { token: "A".into(), res: ResOutcome { pre: 1, status: StatusMode::Absent, prints: 0, end: EndSpec::Abort(code) } }, card_op(), begin("B")],
+                4 => vec![OpSpec::Begin { token: "A".into(), res: ResOutcome { pre: 1, status: StatusMode::WithReceipt, prints: 0, end: EndSpec::Abort(code) } }, card_op(), begin("B")],
                 _ => vec![OpSpec::ReadCard { card: CardOutcome { pre: 1, kind: CardKind::Abort(code), delay_ms: 0 } }, card_op(), begin("A")],
             };
             let mut p = ClientPlan::plain(ops);
             p.cfg.max_tx = 2;
+            // (the status information of an aborted reservation already shows the result code: the exchange
+            // still runs to its end - the abort packet is read and acknowledged - before anything else)
+            p.pt.status_shows_abort_code = true;
             p.label = "aborted_exchange".into();
             p
         }));
